@@ -1,8 +1,9 @@
 /-
-Color488Code, all square sizes `L ≥ 1`, C17 part B: the `2L` lines of each family are sets of
-qubits with pairwise disjoint supports, the listed logicals are members of the families
-(`lower_bound`, through `Lattice.packing_bound`), every listed logical has weight `2L`
-(`reported_distance`).
+Color488Code, all sizes `Lx, Ly ≥ 1`, C17 part B: the `2·La` lines of each family (`La = Lx` for
+the columns, `La = Ly` for the rows) are sets of qubits with pairwise disjoint supports, the listed
+logicals are members of the families (`lower_bound`: `min (2Lx) (2Ly)`, through
+`Lattice.packing_bound`), the listed columns have weight `2Ly` and the listed rows weight `2Lx`
+(`reported_distance`: `min (2Lx) (2Ly)`).
 -/
 import PanqecVerif.Proofs.DistColor488CodeA
 import PanqecVerif.Proofs.Lat2DRankBridge
@@ -10,7 +11,7 @@ import PanqecVerif.Proofs.Lat2DRankBridge
 namespace Panqec.Color488Code
 open Panqec.Lat2D Panqec.Color
 
-variable {L : Nat}
+variable {La Lb : Nat}
 
 /-- `lineReps` with the hypotheses restricted to the indices `< M` -/
 theorem lineRepsB (qs : List Coord) (K : Nat → List Coord) (M : Nat) (P : Pauli)
@@ -38,39 +39,45 @@ theorem mk_inj {tr : Bool} {a b a' b' : Int} (h : mk tr a b = mk tr a' b') : a =
   · simp only [mk, Bool.false_eq_true, if_false, List.cons.injEq, and_true] at h; exact h
   · simp only [mk, if_true, List.cons.injEq, and_true] at h; exact ⟨h.2, h.1⟩
 
-theorem isQ_symm {a b : Int} (h : IsQ L a b) : IsQ L b a := by unfold IsQ at *; omega
+theorem isQ_symm {Lx Ly : Nat} {a b : Int} (h : IsQ Lx Ly a b) : IsQ Ly Lx b a := by
+  unfold IsQ at *; omega
 
-theorem mk_qubit (hL : 1 ≤ L) (tr : Bool) {a b : Int} (h : IsQ L a b) : mk tr a b ∈ qubits L L := by
+theorem mk_qubit (hA : 1 ≤ La) (hB : 1 ≤ Lb) (tr : Bool) {a b : Int} (h : IsQ La Lb a b) :
+    mk tr a b ∈ qubits (sx tr La Lb) (sy tr La Lb) := by
   cases tr
-  · simp only [mk, Bool.false_eq_true, if_false]; exact (mem_qubits' hL).mpr h
-  · simp only [mk, if_true]; exact (mem_qubits' hL).mpr (isQ_symm h)
+  · simp only [mk, Bool.false_eq_true, if_false]
+    show [a, b] ∈ qubits La Lb
+    exact (mem_qubits' hA hB).mpr h
+  · simp only [mk, if_true]
+    show [b, a] ∈ qubits Lb La
+    exact (mem_qubits' hB hA).mpr (isQ_symm h)
 
-theorem xc_range {s : Int} (hs : s = 0 ∨ s = 4) {t : Nat} (ht : t < 2 * L) :
-    3 ≤ xc s t ∧ xc s t < 8 * (L : Int) + 2 ∧ (xc s t % 8 = (3 + s) % 8 ∨ xc s t % 8 = (5 + s) % 8) := by
+theorem xc_range {s : Int} (hs : s = 0 ∨ s = 4) {t : Nat} (ht : t < 2 * La) :
+    3 ≤ xc s t ∧ xc s t < 8 * (La : Int) + 2 ∧ (xc s t % 8 = (3 + s) % 8 ∨ xc s t % 8 = (5 + s) % 8) := by
   unfold xc
   by_cases h : t % 2 = 0
   · rw [if_pos h]; omega
   · rw [if_neg h]; omega
 
 theorem mem_lineK {tr : Bool} {s : Int} {t : Nat} {q : Coord} :
-    q ∈ lineK L tr s t ↔ ∃ i : Nat, i < L ∧
-      (q = mk tr (W L (xc s t)) (W L (8 * (i : Int) + 3 + s)) ∨
-       q = mk tr (W L (xc s t)) (W L (8 * (i : Int) + 5 + s))) := by
+    q ∈ lineK La Lb tr s t ↔ ∃ i : Nat, i < Lb ∧
+      (q = mk tr (W La (xc s t)) (W Lb (8 * (i : Int) + 3 + s)) ∨
+       q = mk tr (W La (xc s t)) (W Lb (8 * (i : Int) + 5 + s))) := by
   unfold lineK
   simp only [List.mem_flatMap, List.mem_range, List.mem_cons, List.not_mem_nil, or_false]
 
 /-- a line of the family is the set of all qubits with that first coordinate -/
-theorem mem_lineK_iff (hL : 1 ≤ L) {tr : Bool} {s : Int} (hs : s = 0 ∨ s = 4) {t : Nat}
-    (ht : t < 2 * L) {q : Coord} :
-    q ∈ lineK L tr s t ↔ ∃ a b, q = mk tr a b ∧ a = W L (xc s t) ∧ IsQ L a b := by
+theorem mem_lineK_iff (hA : 1 ≤ La) (hB : 1 ≤ Lb) {tr : Bool} {s : Int} (hs : s = 0 ∨ s = 4) {t : Nat}
+    (ht : t < 2 * La) {q : Coord} :
+    q ∈ lineK La Lb tr s t ↔ ∃ a b, q = mk tr a b ∧ a = W La (xc s t) ∧ IsQ La Lb a b := by
   have hx := xc_range hs ht
-  have rx := W_range hL (xc s t)
+  have rx := W_range hA (xc s t)
   rw [mem_lineK]
   constructor
   · rintro ⟨i, hi, rfl | rfl⟩
-    · have r := W_range hL (8 * (i : Int) + 3 + s)
+    · have r := W_range hB (8 * (i : Int) + 3 + s)
       exact ⟨_, _, rfl, rfl, by unfold IsQ; omega⟩
-    · have r := W_range hL (8 * (i : Int) + 5 + s)
+    · have r := W_range hB (8 * (i : Int) + 5 + s)
       exact ⟨_, _, rfl, rfl, by unfold IsQ; omega⟩
   · rintro ⟨a, b, rfl, rfl, hq⟩
     unfold IsQ at hq
@@ -89,8 +96,8 @@ theorem mem_lineK_iff (hL : 1 ≤ L) {tr : Bool} {s : Int} (hs : s = 0 ∨ s = 4
         rw [W_small (v := 8 * ((b / 8).toNat : Int) + 3 + 4) (by omega) (by omega)]
         congr 1; omega
       · by_cases hb1 : b = 1
-        · refine ⟨L - 1, by omega, Or.inr ?_⟩
-          rcases W_cases (L := L) (v := 8 * ((L - 1 : Nat) : Int) + 5 + 4) (by omega) (by omega)
+        · refine ⟨Lb - 1, by omega, Or.inr ?_⟩
+          rcases W_cases (L := Lb) (v := 8 * ((Lb - 1 : Nat) : Int) + 5 + 4) (by omega) (by omega)
             with ⟨h1, _⟩ | ⟨_, h2⟩
           · omega
           · rw [h2]; congr 1; omega
@@ -98,15 +105,15 @@ theorem mem_lineK_iff (hL : 1 ≤ L) {tr : Bool} {s : Int} (hs : s = 0 ∨ s = 4
           rw [W_small (v := 8 * (((b / 8).toNat - 1 : Nat) : Int) + 5 + 4) (by omega) (by omega)]
           congr 1; omega
 
-theorem lineK_qubits (hL : 1 ≤ L) {tr : Bool} {s : Int} (hs : s = 0 ∨ s = 4) {t : Nat}
-    (ht : t < 2 * L) : ∀ q ∈ lineK L tr s t, q ∈ qubits L L := by
+theorem lineK_qubits (hA : 1 ≤ La) (hB : 1 ≤ Lb) {tr : Bool} {s : Int} (hs : s = 0 ∨ s = 4) {t : Nat}
+    (ht : t < 2 * La) : ∀ q ∈ lineK La Lb tr s t, q ∈ qubits (sx tr La Lb) (sy tr La Lb) := by
   intro q hq
-  obtain ⟨a, b, rfl, _, h⟩ := (mem_lineK_iff hL hs ht).mp hq
-  exact mk_qubit hL tr h
+  obtain ⟨a, b, rfl, _, h⟩ := (mem_lineK_iff hA hB hs ht).mp hq
+  exact mk_qubit hA hB tr h
 
 /-- the wrapped running coordinates of a line are pairwise distinct -/
-theorem W_run_inj (hL : 1 ≤ L) {s : Int} (hs : s = 0 ∨ s = 4) {i j : Nat} (hi : i < L) (hj : j < L)
-    {c c' : Int} (hc : c = 3 ∨ c = 5) (hc' : c' = 3 ∨ c' = 5)
+theorem W_run_inj {L : Nat} (hL : 1 ≤ L) {s : Int} (hs : s = 0 ∨ s = 4) {i j : Nat} (hi : i < L)
+    (hj : j < L) {c c' : Int} (hc : c = 3 ∨ c = 5) (hc' : c' = 3 ∨ c' = 5)
     (h : W L (8 * (i : Int) + c + s) = W L (8 * (j : Int) + c' + s)) : i = j ∧ c = c' := by
   have r1 := W_range hL (8 * (i : Int) + c + s)
   have r2 := W_range hL (8 * (j : Int) + c' + s)
@@ -116,203 +123,244 @@ theorem W_run_inj (hL : 1 ≤ L) {s : Int} (hs : s = 0 ∨ s = 4) {i j : Nat} (h
   rcases W_cases (L := L) (v := 8 * (j : Int) + c + s) (by omega) (by omega) with ⟨_, e2⟩ | ⟨_, e2⟩ <;>
   exact ⟨by omega, rfl⟩
 
-theorem nodup_lineK (hL : 1 ≤ L) (tr : Bool) {s : Int} (hs : s = 0 ∨ s = 4) (t : Nat) :
-    (lineK L tr s t).Nodup := by
+theorem nodup_lineK (hB : 1 ≤ Lb) (tr : Bool) {s : Int} (hs : s = 0 ∨ s = 4) (t : Nat) :
+    (lineK La Lb tr s t).Nodup := by
   unfold lineK
   apply Color666PlanarCode.nodup_blocks
   · intro i
     simp only [List.nodup_cons, List.mem_cons, List.not_mem_nil, or_false, not_false_eq_true,
       List.nodup_nil, and_true]
     intro e
-    have r1 := W_range hL (8 * (i : Int) + 3 + s)
-    have r2 := W_range hL (8 * (i : Int) + 5 + s)
+    have r1 := W_range hB (8 * (i : Int) + 3 + s)
+    have r2 := W_range hB (8 * (i : Int) + 5 + s)
     have := (mk_inj e).2
     omega
   · intro i j hi hj hij q hq hr
     simp only [List.mem_cons, List.not_mem_nil, or_false] at hq hr
     rcases hq with rfl | rfl <;> rcases hr with e | e
-    · exact hij (W_run_inj hL hs hi hj (Or.inl rfl) (Or.inl rfl) (mk_inj e).2).1
-    · have := (W_run_inj hL hs hi hj (Or.inl rfl) (Or.inr rfl) (mk_inj e).2).2; omega
-    · have := (W_run_inj hL hs hi hj (Or.inr rfl) (Or.inl rfl) (mk_inj e).2).2; omega
-    · exact hij (W_run_inj hL hs hi hj (Or.inr rfl) (Or.inr rfl) (mk_inj e).2).1
+    · exact hij (W_run_inj hB hs hi hj (Or.inl rfl) (Or.inl rfl) (mk_inj e).2).1
+    · have := (W_run_inj hB hs hi hj (Or.inl rfl) (Or.inr rfl) (mk_inj e).2).2; omega
+    · have := (W_run_inj hB hs hi hj (Or.inr rfl) (Or.inl rfl) (mk_inj e).2).2; omega
+    · exact hij (W_run_inj hB hs hi hj (Or.inr rfl) (Or.inr rfl) (mk_inj e).2).1
 
 /-- different lines of a family have different (wrapped) coordinates -/
-theorem W_xc_inj {s : Int} (hs : s = 0 ∨ s = 4) {t t' : Nat} (ht : t < 2 * L)
-    (ht' : t' < 2 * L) (h : W L (xc s t) = W L (xc s t')) : t = t' := by
+theorem W_xc_inj {s : Int} (hs : s = 0 ∨ s = 4) {t t' : Nat} (ht : t < 2 * La)
+    (ht' : t' < 2 * La) (h : W La (xc s t) = W La (xc s t')) : t = t' := by
   have h1 := xc_range hs ht
   have h2 := xc_range hs ht'
   have d1 : xc s t = 8 * ((t / 2 : Nat) : Int) + (if t % 2 = 0 then 3 else 5) + s := rfl
   have d2 : xc s t' = 8 * ((t' / 2 : Nat) : Int) + (if t' % 2 = 0 then 3 else 5) + s := rfl
-  rcases W_cases (L := L) (v := xc s t) (by omega) (by omega) with ⟨_, e1⟩ | ⟨_, e1⟩ <;>
-  rcases W_cases (L := L) (v := xc s t') (by omega) (by omega) with ⟨_, e2⟩ | ⟨_, e2⟩ <;>
+  rcases W_cases (L := La) (v := xc s t) (by omega) (by omega) with ⟨_, e1⟩ | ⟨_, e1⟩ <;>
+  rcases W_cases (L := La) (v := xc s t') (by omega) (by omega) with ⟨_, e2⟩ | ⟨_, e2⟩ <;>
   (rw [e1, e2] at h
    generalize xc s t = X at *
    generalize xc s t' = X' at *
    by_cases p1 : t % 2 = 0 <;> by_cases p2 : t' % 2 = 0 <;>
      simp only [p1, p2, if_true, if_false] at d1 d2 <;> omega)
 
-/-- the side conditions of `Lattice.packing_bound` for the `2L` lines of a family -/
-theorem repsLines (hL : 1 ≤ L) (tr : Bool) {s : Int} (hs : s = 0 ∨ s = 4) (P : Pauli) :
-    ((List.range (2 * L)).map fun t => (lineK L tr s t).map (fun q => (q, P))).length = 2 * L ∧
-    (∀ r ∈ (List.range (2 * L)).map fun t => (lineK L tr s t).map (fun q => (q, P)),
-      KeysNodup r ∧ opSupported (qubits L L) r = true) ∧
-    ((List.range (2 * L)).map fun t => (lineK L tr s t).map (fun q => (q, P))).Pairwise
+/-- the side conditions of `Lattice.packing_bound` for the `2·La` lines of a family -/
+theorem repsLines (hA : 1 ≤ La) (hB : 1 ≤ Lb) (tr : Bool) {s : Int} (hs : s = 0 ∨ s = 4) (P : Pauli) :
+    ((List.range (2 * La)).map fun t => (lineK La Lb tr s t).map (fun q => (q, P))).length = 2 * La ∧
+    (∀ r ∈ (List.range (2 * La)).map fun t => (lineK La Lb tr s t).map (fun q => (q, P)),
+      KeysNodup r ∧ opSupported (qubits (sx tr La Lb) (sy tr La Lb)) r = true) ∧
+    ((List.range (2 * La)).map fun t => (lineK La Lb tr s t).map (fun q => (q, P))).Pairwise
       KeysDisjoint :=
-  lineRepsB _ _ _ P (fun t _ => nodup_lineK hL tr hs t) (fun t ht => lineK_qubits hL hs ht)
+  lineRepsB _ _ _ P (fun t _ => nodup_lineK hB tr hs t) (fun t ht => lineK_qubits hA hB hs ht)
     (fun t t' htt ht' q hq hq' => by
-      obtain ⟨a, b, rfl, ha, _⟩ := (mem_lineK_iff hL hs (by omega : t < 2 * L)).mp hq
-      obtain ⟨a', b', e, ha', _⟩ := (mem_lineK_iff hL hs ht').mp hq'
+      obtain ⟨a, b, rfl, ha, _⟩ := (mem_lineK_iff hA hB hs (by omega : t < 2 * La)).mp hq
+      obtain ⟨a', b', e, ha', _⟩ := (mem_lineK_iff hA hB hs ht').mp hq'
       have := (mk_inj e).1
-      have := W_xc_inj hs (by omega : t < 2 * L) ht' (by rw [← ha, ← ha', this])
+      have := W_xc_inj hs (by omega : t < 2 * La) ht' (by rw [← ha, ← ha', this])
       omega)
 
 /-! ### the listed lines are members of the families -/
 
 theorem xc_zero (s : Int) : xc s 0 = 3 + s := by unfold xc; simp
 theorem xc_one (s : Int) : xc s 1 = 5 + s := by unfold xc; simp
-theorem xc_last (hL : 1 ≤ L) (s : Int) : xc s (2 * L - 1) = 8 * (L : Int) - 3 + s := by
+theorem xc_last {L : Nat} (hL : 1 ≤ L) (s : Int) : xc s (2 * L - 1) = 8 * (L : Int) - 3 + s := by
   unfold xc
   rw [if_neg (by omega)]
   omega
 
-theorem k3_perm (hL : 1 ≤ L) : (k3 L).Perm (lineK L false 0 0) := by
-  rw [List.perm_ext_iff_of_nodup (nodup_k3 L) (nodup_lineK hL false (Or.inl rfl) 0)]
+section listed
+variable {Lx Ly : Nat}
+
+theorem k3_perm (hx : 1 ≤ Lx) (hy : 1 ≤ Ly) : (k3 Lx Ly).Perm (lineK Lx Ly false 0 0) := by
+  rw [List.perm_ext_iff_of_nodup (nodup_k3 Lx Ly) (nodup_lineK hy false (Or.inl rfl) 0)]
   intro q
-  rw [mem_lineK_iff hL (Or.inl rfl) (by omega), xc_zero, W_small (by omega) (by omega)]
+  rw [mem_lineK_iff hx hy (Or.inl rfl) (by omega), xc_zero, W_small (by omega) (by omega)]
   constructor
   · intro h
-    obtain ⟨a, b, rfl, _⟩ := line_shape hL (mem_k3 hL) h
-    obtain ⟨rfl, hq⟩ := (mem_k3' hL).mp h
+    obtain ⟨a, b, rfl, _⟩ := line_shape hx hy (mem_k3 hx hy) h
+    obtain ⟨rfl, hq⟩ := (mem_k3' hx hy).mp h
     exact ⟨3, b, rfl, rfl, hq⟩
   · rintro ⟨a, b, rfl, rfl, hq⟩
-    exact (mem_k3' hL).mpr ⟨rfl, hq⟩
+    exact (mem_k3' hx hy).mpr ⟨rfl, hq⟩
 
-theorem k7_perm (hL : 1 ≤ L) : (k7 L).Perm (lineK L false 4 0) := by
-  rw [List.perm_ext_iff_of_nodup (nodup_k7 L) (nodup_lineK hL false (Or.inr rfl) 0)]
+theorem k7_perm (hx : 1 ≤ Lx) (hy : 1 ≤ Ly) : (k7 Lx Ly).Perm (lineK Lx Ly false 4 0) := by
+  rw [List.perm_ext_iff_of_nodup (nodup_k7 Lx Ly) (nodup_lineK hy false (Or.inr rfl) 0)]
   intro q
-  rw [mem_lineK_iff hL (Or.inr rfl) (by omega), xc_zero, W_small (by omega) (by omega)]
+  rw [mem_lineK_iff hx hy (Or.inr rfl) (by omega), xc_zero, W_small (by omega) (by omega)]
   constructor
   · intro h
-    obtain ⟨a, b, rfl, _⟩ := line_shape hL (mem_k7 hL) h
-    obtain ⟨rfl, hq⟩ := (mem_k7' hL).mp h
+    obtain ⟨a, b, rfl, _⟩ := line_shape hx hy (mem_k7 hx hy) h
+    obtain ⟨rfl, hq⟩ := (mem_k7' hx hy).mp h
     exact ⟨7, b, rfl, rfl, hq⟩
   · rintro ⟨a, b, rfl, rfl, hq⟩
-    exact (mem_k7' hL).mpr ⟨rfl, hq⟩
+    exact (mem_k7' hx hy).mpr ⟨rfl, hq⟩
 
-theorem r5_perm (hL : 1 ≤ L) : (r5 L).Perm (lineK L true 0 1) := by
-  rw [List.perm_ext_iff_of_nodup (nodup_r5 L) (nodup_lineK hL true (Or.inl rfl) 1)]
+theorem r5_perm (hx : 1 ≤ Lx) (hy : 1 ≤ Ly) : (r5 Lx Ly).Perm (lineK Ly Lx true 0 1) := by
+  rw [List.perm_ext_iff_of_nodup (nodup_r5 Lx Ly) (nodup_lineK hx true (Or.inl rfl) 1)]
   intro q
-  rw [mem_lineK_iff hL (Or.inl rfl) (by omega), xc_one, W_small (by omega) (by omega)]
+  rw [mem_lineK_iff hy hx (Or.inl rfl) (by omega), xc_one, W_small (by omega) (by omega)]
   constructor
   · intro h
-    obtain ⟨a, b, rfl, _⟩ := line_shape hL (mem_r5 hL) h
-    obtain ⟨rfl, hq⟩ := (mem_r5' hL).mp h
+    obtain ⟨a, b, rfl, _⟩ := line_shape hx hy (mem_r5 hx hy) h
+    obtain ⟨rfl, hq⟩ := (mem_r5' hx hy).mp h
     exact ⟨5, a, rfl, rfl, isQ_symm hq⟩
   · rintro ⟨a, b, rfl, rfl, hq⟩
-    exact (mem_r5' hL).mpr ⟨rfl, isQ_symm hq⟩
+    exact (mem_r5' hx hy).mpr ⟨rfl, isQ_symm hq⟩
 
-theorem r1_perm (hL : 1 ≤ L) : (r1 L).Perm (lineK L true 4 (2 * L - 1)) := by
-  rw [List.perm_ext_iff_of_nodup (nodup_r1 L) (nodup_lineK hL true (Or.inr rfl) (2 * L - 1))]
+theorem r1_perm (hx : 1 ≤ Lx) (hy : 1 ≤ Ly) :
+    (r1 Lx Ly).Perm (lineK Ly Lx true 4 (2 * Ly - 1)) := by
+  rw [List.perm_ext_iff_of_nodup (nodup_r1 Lx Ly) (nodup_lineK hx true (Or.inr rfl) (2 * Ly - 1))]
   intro q
-  have hW : W L (8 * (L : Int) - 3 + 4) = 1 := by
-    rcases W_cases (L := L) (v := 8 * (L : Int) - 3 + 4) (by omega) (by omega) with ⟨h1, _⟩ | ⟨_, h2⟩
+  have hW : W Ly (8 * (Ly : Int) - 3 + 4) = 1 := by
+    rcases W_cases (L := Ly) (v := 8 * (Ly : Int) - 3 + 4) (by omega) (by omega) with ⟨h1, _⟩ | ⟨_, h2⟩
     · omega
     · rw [h2]; omega
-  rw [mem_lineK_iff hL (Or.inr rfl) (by omega), xc_last hL, hW]
+  rw [mem_lineK_iff hy hx (Or.inr rfl) (by omega), xc_last hy, hW]
   constructor
   · intro h
-    obtain ⟨a, b, rfl, _⟩ := line_shape hL (mem_r1 hL) h
-    obtain ⟨rfl, hq⟩ := (mem_r1' hL).mp h
+    obtain ⟨a, b, rfl, _⟩ := line_shape hx hy (mem_r1 hx hy) h
+    obtain ⟨rfl, hq⟩ := (mem_r1' hx hy).mp h
     exact ⟨1, a, rfl, rfl, isQ_symm hq⟩
   · rintro ⟨a, b, rfl, rfl, hq⟩
-    exact (mem_r1' hL).mpr ⟨rfl, isQ_symm hq⟩
+    exact (mem_r1' hx hy).mpr ⟨rfl, isQ_symm hq⟩
+
+end listed
 
 /-! ### the packing bound -/
 
 /-- the parity of `b` with a member `t0` of a family is the parity with every member -/
-theorem line_parity' (tr : Bool) (hL : 1 ≤ L) {b : Op} (hb : CommStabs L b) {p : Int}
-    (hp : p = 0 ∨ p = 1) {s : Int} (hs : s = 0 ∨ s = 4) {t0 : Nat} (ht0 : t0 < 2 * L) (t : Nat)
-    (ht : t < 2 * L) :
-    (lineK L tr s t).countP (opHit (letter p) b) % 2 =
-      (lineK L tr s t0).countP (opHit (letter p) b) % 2 := by
-  rw [countP_lineK, countP_lineK, line_parity tr hL hb hp hs t ht, line_parity tr hL hb hp hs t0 ht0]
+theorem line_parity' (tr : Bool) (hA : 1 ≤ La) (hB : 1 ≤ Lb) {b : Op}
+    (hb : CommStabs (sx tr La Lb) (sy tr La Lb) b) {p : Int}
+    (hp : p = 0 ∨ p = 1) {s : Int} (hs : s = 0 ∨ s = 4) {t0 : Nat} (ht0 : t0 < 2 * La) (t : Nat)
+    (ht : t < 2 * La) :
+    (lineK La Lb tr s t).countP (opHit (letter p) b) % 2 =
+      (lineK La Lb tr s t0).countP (opHit (letter p) b) % 2 := by
+  rw [countP_lineK, countP_lineK, line_parity tr hA hB hb hp hs t ht,
+    line_parity tr hA hB hb hp hs t0 ht0]
 
-/-- one listed logical: `2L` disjoint representatives -/
-theorem reps_of (hL : 1 ≤ L) (tr : Bool) {s : Int} (hs : s = 0 ∨ s = 4) {p : Int}
-    (hp : p = 0 ∨ p = 1) {K : List Coord} {t0 : Nat} (ht0 : t0 < 2 * L)
-    (hK : K.Perm (lineK L tr s t0)) :
-    ∃ reps : List Op, 2 * L ≤ reps.length ∧
-      (∀ r ∈ reps, KeysNodup r ∧ opSupported (qubits L L) r = true) ∧
+/-- one listed logical: `2·La` disjoint representatives -/
+theorem reps_of (hA : 1 ≤ La) (hB : 1 ≤ Lb) (tr : Bool) {s : Int} (hs : s = 0 ∨ s = 4) {p : Int}
+    (hp : p = 0 ∨ p = 1) {K : List Coord} {t0 : Nat} (ht0 : t0 < 2 * La)
+    (hK : K.Perm (lineK La Lb tr s t0)) :
+    ∃ reps : List Op, 2 * La ≤ reps.length ∧
+      (∀ r ∈ reps, KeysNodup r ∧ opSupported (qubits (sx tr La Lb) (sy tr La Lb)) r = true) ∧
       reps.Pairwise KeysDisjoint ∧
-      ∀ b : Op, KeysNodup b → opSupported (qubits L L) b = true → CommStabs L b →
+      ∀ b : Op, KeysNodup b → opSupported (qubits (sx tr La Lb) (sy tr La Lb)) b = true →
+        CommStabs (sx tr La Lb) (sy tr La Lb) b →
         ∀ r ∈ reps, opAntiCount r b % 2 = opAntiCount (K.map (fun q => (q, letter p))) b % 2 := by
-  obtain ⟨h1, h2, h3⟩ := repsLines hL tr hs (letter p)
+  obtain ⟨h1, h2, h3⟩ := repsLines hA hB tr hs (letter p)
   refine ⟨_, by rw [h1], h2, h3, ?_⟩
   intro b _ _ hb r hr
   obtain ⟨t, ht, rfl⟩ := List.mem_map.mp hr
   rw [opAntiCount_line, opAntiCount_line, hK.countP_eq]
-  exact line_parity' tr hL hb hp hs ht0 t (List.mem_range.mp ht)
+  exact line_parity' tr hA hB hb hp hs ht0 t (List.mem_range.mp ht)
 
-/-- every non-trivial logical operator of the `L × L` 4.8.8 colour code has weight `≥ 2L` -/
-theorem lower_bound (hL : 1 ≤ L) (hwf : (lattice L L).WF) {n k : Nat}
-    (hn : (qubits L L).length = n)
-    (hv : ValidCodeL n k (lattice L L).rowsH (lattice L L).rowsX (lattice L L).rowsZ) :
-    ∀ v, IsNontrivialLogical n (lattice L L).rowsH v → 2 * L ≤ pauliWeight v := by
-  apply Lattice.packing_bound (lattice L L) hwf hn hv
+/-- the same with the common bound `min (2Lx) (2Ly)`, columns (`tr = false`) -/
+theorem reps_col {Lx Ly : Nat} (hx : 1 ≤ Lx) (hy : 1 ≤ Ly) {s : Int} (hs : s = 0 ∨ s = 4) {p : Int}
+    (hp : p = 0 ∨ p = 1) {K : List Coord} {t0 : Nat} (ht0 : t0 < 2 * Lx)
+    (hK : K.Perm (lineK Lx Ly false s t0)) :
+    ∃ reps : List Op, min (2 * Lx) (2 * Ly) ≤ reps.length ∧
+      (∀ r ∈ reps, KeysNodup r ∧ opSupported (qubits Lx Ly) r = true) ∧
+      reps.Pairwise KeysDisjoint ∧
+      ∀ b : Op, KeysNodup b → opSupported (qubits Lx Ly) b = true → CommStabs Lx Ly b →
+        ∀ r ∈ reps, opAntiCount r b % 2 = opAntiCount (K.map (fun q => (q, letter p))) b % 2 := by
+  obtain ⟨reps, h1, h2⟩ := reps_of hx hy false hs hp ht0 hK
+  exact ⟨reps, by omega, h2⟩
+
+/-- the same, rows (`tr = true`: `2Ly` translates of a row) -/
+theorem reps_row {Lx Ly : Nat} (hx : 1 ≤ Lx) (hy : 1 ≤ Ly) {s : Int} (hs : s = 0 ∨ s = 4) {p : Int}
+    (hp : p = 0 ∨ p = 1) {K : List Coord} {t0 : Nat} (ht0 : t0 < 2 * Ly)
+    (hK : K.Perm (lineK Ly Lx true s t0)) :
+    ∃ reps : List Op, min (2 * Lx) (2 * Ly) ≤ reps.length ∧
+      (∀ r ∈ reps, KeysNodup r ∧ opSupported (qubits Lx Ly) r = true) ∧
+      reps.Pairwise KeysDisjoint ∧
+      ∀ b : Op, KeysNodup b → opSupported (qubits Lx Ly) b = true → CommStabs Lx Ly b →
+        ∀ r ∈ reps, opAntiCount r b % 2 = opAntiCount (K.map (fun q => (q, letter p))) b % 2 := by
+  obtain ⟨reps, h1, h2⟩ := reps_of hy hx true hs hp ht0 hK
+  exact ⟨reps, by omega, h2⟩
+
+section bound
+variable {Lx Ly : Nat}
+
+/-- every non-trivial logical operator of the `Lx × Ly` 4.8.8 colour code has weight
+    `≥ min (2Lx) (2Ly)`: it anticommutes with a listed column (which has `2Lx` disjoint translates)
+    or with a listed row (`2Ly` disjoint translates) -/
+theorem lower_bound (hx : 1 ≤ Lx) (hy : 1 ≤ Ly) (hwf : (lattice Lx Ly).WF) {n k : Nat}
+    (hn : (qubits Lx Ly).length = n)
+    (hv : ValidCodeL n k (lattice Lx Ly).rowsH (lattice Lx Ly).rowsX (lattice Lx Ly).rowsZ) :
+    ∀ v, IsNontrivialLogical n (lattice Lx Ly).rowsH v → min (2 * Lx) (2 * Ly) ≤ pauliWeight v := by
+  apply Lattice.packing_bound (lattice Lx Ly) hwf hn hv
   intro a ha
-  change a ∈ logX L L ++ logZ L L at ha
-  change ∃ reps : List Op, _ ∧ (∀ r ∈ reps, KeysNodup r ∧ opSupported (qubits L L) r = true) ∧
-    _ ∧ ∀ b : Op, _ → _ → CommStabs L b → _
+  change a ∈ logX Lx Ly ++ logZ Lx Ly at ha
+  change ∃ reps : List Op, _ ∧ (∀ r ∈ reps, KeysNodup r ∧ opSupported (qubits Lx Ly) r = true) ∧
+    _ ∧ ∀ b : Op, _ → _ → CommStabs Lx Ly b → _
   rw [logX_eq, logZ_eq] at ha
   simp only [List.cons_append, List.nil_append, List.mem_cons, List.not_mem_nil, or_false] at ha
   have p0 : (0 : Int) = 0 ∨ (0 : Int) = 1 := Or.inl rfl
   have p1 : (1 : Int) = 0 ∨ (1 : Int) = 1 := Or.inr rfl
   rcases ha with rfl | rfl | rfl | rfl | rfl | rfl | rfl | rfl
-  · exact reps_of hL false (Or.inl rfl) p0 (by omega) (k3_perm hL)
-  · exact reps_of hL false (Or.inr rfl) p0 (by omega) (k7_perm hL)
-  · exact reps_of hL true (Or.inl rfl) p0 (by omega) (r5_perm hL)
-  · exact reps_of hL true (Or.inr rfl) p0 (by omega) (r1_perm hL)
-  · exact reps_of hL true (Or.inl rfl) p1 (by omega) (r5_perm hL)
-  · exact reps_of hL true (Or.inr rfl) p1 (by omega) (r1_perm hL)
-  · exact reps_of hL false (Or.inl rfl) p1 (by omega) (k3_perm hL)
-  · exact reps_of hL false (Or.inr rfl) p1 (by omega) (k7_perm hL)
+  · exact reps_col hx hy (Or.inl rfl) p0 (by omega) (k3_perm hx hy)
+  · exact reps_col hx hy (Or.inr rfl) p0 (by omega) (k7_perm hx hy)
+  · exact reps_row hx hy (Or.inl rfl) p0 (by omega) (r5_perm hx hy)
+  · exact reps_row hx hy (Or.inr rfl) p0 (by omega) (r1_perm hx hy)
+  · exact reps_row hx hy (Or.inl rfl) p1 (by omega) (r5_perm hx hy)
+  · exact reps_row hx hy (Or.inr rfl) p1 (by omega) (r1_perm hx hy)
+  · exact reps_col hx hy (Or.inl rfl) p1 (by omega) (k3_perm hx hy)
+  · exact reps_col hx hy (Or.inr rfl) p1 (by omega) (k7_perm hx hy)
 
 /-! ### weights of the listed logicals, reported distance -/
 
-theorem weight_listed (hwf : (lattice L L).WF) {a : Op}
-    (ha : a ∈ (lattice L L).logX ++ (lattice L L).logZ) :
-    pauliWeight (opRow (lattice L L).qubits a) = a.length :=
+theorem weight_listed (hwf : (lattice Lx Ly).WF) {a : Op}
+    (ha : a ∈ (lattice Lx Ly).logX ++ (lattice Lx Ly).logZ) :
+    pauliWeight (opRow (lattice Lx Ly).qubits a) = a.length :=
   pauliWeight_opRow _ hwf.qubits_nodup a (hwf.log_keys a ha) (hwf.log_supported a ha)
 
-/-- every row of `logicals_x` and of `logicals_z` has weight `2L` -/
-theorem weights_listed (hL : 1 ≤ L) (hwf : (lattice L L).WF) :
-    (lattice L L).rowsX.map pauliWeight = [2 * L, 2 * L, 2 * L, 2 * L] ∧
-    (lattice L L).rowsZ.map pauliWeight = [2 * L, 2 * L, 2 * L, 2 * L] := by
+/-- the rows of `logicals_x` have weights `2Ly, 2Ly, 2Lx, 2Lx` (two columns, two rows of qubits),
+    those of `logicals_z` weights `2Lx, 2Lx, 2Ly, 2Ly` -/
+theorem weights_listed (hx : 1 ≤ Lx) (hy : 1 ≤ Ly) (hwf : (lattice Lx Ly).WF) :
+    (lattice Lx Ly).rowsX.map pauliWeight = [2 * Ly, 2 * Ly, 2 * Lx, 2 * Lx] ∧
+    (lattice Lx Ly).rowsZ.map pauliWeight = [2 * Lx, 2 * Lx, 2 * Ly, 2 * Ly] := by
   have hw := fun a ha => weight_listed hwf (a := a) ha
-  change ∀ a, a ∈ logX L L ++ logZ L L → _ at hw
+  change ∀ a, a ∈ logX Lx Ly ++ logZ Lx Ly → _ at hw
   rw [logX_eq, logZ_eq] at hw
   unfold Lattice.rowsX Lattice.rowsZ
-  change (List.map (opRow (lattice L L).qubits) (logX L L)).map pauliWeight = _ ∧
-    (List.map (opRow (lattice L L).qubits) (logZ L L)).map pauliWeight = _
+  change (List.map (opRow (lattice Lx Ly).qubits) (logX Lx Ly)).map pauliWeight = _ ∧
+    (List.map (opRow (lattice Lx Ly).qubits) (logZ Lx Ly)).map pauliWeight = _
   rw [logX_eq, logZ_eq]
   simp only [List.map_cons, List.map_nil]
   rw [hw _ (by simp), hw _ (by simp), hw _ (by simp), hw _ (by simp), hw _ (by simp),
     hw _ (by simp), hw _ (by simp), hw _ (by simp)]
-  simp only [List.length_map, length_k3 hL, length_k7 hL, length_r5 hL, length_r1 hL]
+  simp only [List.length_map, length_k3 hx hy, length_k7 hx hy, length_r5 hx hy, length_r1 hx hy]
   exact ⟨trivial, trivial⟩
 
-/-- `code.d` (minimum weight of the listed logicals) is `2L` -/
-theorem reported_distance (hL : 1 ≤ L) (hwf : (lattice L L).WF) :
-    distance (lattice L L).rowsX (lattice L L).rowsZ = some (2 * L) := by
-  obtain ⟨h1, h2⟩ := weights_listed hL hwf
+/-- `code.d` (minimum weight of the listed logicals) is `min (2Lx) (2Ly)` -/
+theorem reported_distance (hx : 1 ≤ Lx) (hy : 1 ≤ Ly) (hwf : (lattice Lx Ly).WF) :
+    distance (lattice Lx Ly).rowsX (lattice Lx Ly).rowsZ = some (min (2 * Lx) (2 * Ly)) := by
+  obtain ⟨h1, h2⟩ := weights_listed hx hy hwf
   unfold distance
-  show (match listMin ((lattice L L).rowsX.map pauliWeight),
-    listMin ((lattice L L).rowsZ.map pauliWeight) with
+  show (match listMin ((lattice Lx Ly).rowsX.map pauliWeight),
+    listMin ((lattice Lx Ly).rowsZ.map pauliWeight) with
     | some a, some b => some (min a b)
     | _, _ => none) = _
   rw [h1, h2]
   simp only [listMin, List.foldl_cons, List.foldl_nil]
   congr 1
   omega
+
+end bound
 
 end Panqec.Color488Code
